@@ -224,9 +224,13 @@ mod __verif_c05s {
     fn not_of_a_comparison() {
         let w = any_world();
         let a = any_leaf_i64_or_f64(true);
-        let p = not(leaf_expr(&a));
+        // the inner comparison lives in a local; the Box only borrows its address and is never dropped (forget below),
+        // so CBMC sees the child's variant tag as the constant it is
+        let mut inner = leaf_expr(&a);
+        let p = Expr::UnaryExpr { op: UnaryOp::Not, expr: unsafe { Box::from_raw(&mut inner as *mut Expr) } };
         check(&w, &p, not3(leaf_tv(&a, w.row)));
         std::mem::forget(p);
+        std::mem::forget(inner);
         std::mem::forget(w);
     }
 
